@@ -538,11 +538,103 @@ def direct_build_fit(ctx, lines, pending):
                                                    illcond=False, det=det, mag=1.0)))
 
 
+def fit_info_cases(ctx, count):
+    """the descriptive quantities as a USER sees them: meta['fit_info'] assembled by WCSGroupCatalog.align_to_ref
+    (through fit_wcs / align_wcs) must describe fit_info['matrix'] exactly as the fit dictionary does - proper and
+    improper fits, angles on both sides of the +-180 cut, anisotropic scales"""
+    from astropy.table import Table
+    from astropy import wcs as fitswcs
+    from tweakwcs import FITSWCSCorrector, fit_wcs, align_wcs
+    rng = ctx.rng
+    fixed = [((10.0, 10.0), (1.0, 1.0)), ((175.0, -170.0), (1.0, 1.02)), ((40.0, 220.0), (1.0, 1.0)),
+             ((-130.0, 50.0), (0.99, 0.99)), ((179.5, 179.9), (1.01, 0.98)), ((-179.8, -179.0), (1.0, 1.0)),
+             ((90.0, -90.0), (1.0, 1.0)), ((0.0, 180.0), (1.0, 1.0))]
+    for it in range(count):
+        if it < len(fixed):
+            (rx0, ry0), (sx0, sy0) = fixed[it]
+            geom = 'general'
+        else:
+            geom = rng.choice(['general', 'general', 'rscale', 'rshift'])
+            rx0 = rng.choice([rng.uniform(-180, 180), 179.0, -179.5, 90.0, -90.0, 0.3])
+            if geom == 'general':
+                ry0 = rx0 + rng.choice([0.0, rng.uniform(-8, 8), 180.0, 180.0 + rng.uniform(-5, 5), 15.0])
+                sx0, sy0 = rng.uniform(0.9, 1.1), rng.uniform(0.9, 1.1)
+            else:
+                ry0 = rx0 + rng.choice([0.0, 180.0])
+                sx0 = sy0 = 1.0 if geom == 'rshift' else rng.uniform(0.9, 1.1)
+        A = rebuild((rx0, ry0), (sx0, sy0))
+        t = np.array([rng.uniform(-3, 3), rng.uniform(-3, 3)])
+        w = fitswcs.WCS(naxis=2)
+        w.wcs.crpix = [500.0, 520.0]
+        w.wcs.crval = [rng.uniform(0, 360), rng.uniform(-70, 70)]
+        w.wcs.cd = np.array([[-1.0, 0.0], [0.0, 1.0]]) * 2e-5
+        w.wcs.ctype = ['RA---TAN', 'DEC--TAN']
+        w.pixel_shape = (1024, 1024)
+        w.wcs.set()
+        c = FITSWCSCorrector(w)
+        n = rng.choice([4, 7, 20])
+        npr = np.random.default_rng(rng.getrandbits(32))
+        x = npr.uniform(150, 850, n)
+        y = npr.uniform(150, 850, n)
+        tx, ty = c.det_to_tanp(x, y)
+        r = A.dot(np.vstack([tx, ty])) + t[:, None]
+        ra, dec = c.tanp_to_world(r[0], r[1])
+        imcat = Table([x, y], names=('x', 'y'))
+        refcat = Table([np.asarray(ra, dtype=float), np.asarray(dec, dtype=float)], names=('RA', 'DEC'))
+        entry = rng.choice(['fit_wcs', 'align_wcs'])
+        case = {'kind': 'fit_info', 'geom': geom, 'rot': [rx0, ry0], 'scale': [sx0, sy0], 'entry': entry, 'n': int(n)}
+        ctx.case(case, nontrivial=True, branch='fit_info:%s:%s' % (geom, 'improper' if np.linalg.det(A) < 0 else 'proper'))
+        try:
+            if entry == 'fit_wcs':
+                c = fit_wcs(refcat, imcat, c, fitgeom=geom)
+            else:
+                c.meta['catalog'] = imcat
+                align_wcs(c, refcat=refcat, fitgeom=geom, match=None)
+            fi = c.meta['fit_info']
+        except Exception as e:   # noqa
+            ctx.oracle_fail(case, {'what': 'alignment raised', 'exc': repr(e)[:200]})
+            continue
+        if fi.get('status') != 'SUCCESS':
+            ctx.oracle_fail(case, {'what': 'status is not SUCCESS', 'status': fi.get('status')})
+            continue
+
+        def bad(what, **kw):
+            det_ = {'what': "fit_info: " + what}
+            det_.update(kw)
+            ctx.oracle_fail(case, det_)
+        M = np.array(fi['matrix'], dtype=float)
+        rx, ry = (float(v) for v in fi['rot'])
+        sx, sy = (float(v) for v in fi['scale'])
+        mrot, mscale, skew, proper = float(fi['<rot>']), float(fi['<scale>']), float(fi['skew']), bool(fi['proper'])
+        det = M[0, 0] * M[1, 1] - M[0, 1] * M[1, 0]
+        mag = float(np.max(np.abs(M))) or 1.0
+        if float(np.max(np.abs(rebuild((rx, ry), (sx, sy)) - M))) > 1e-7 * mag:
+            bad('matrix rebuilt from reported rot/scale differs from the reported matrix', rot=[rx, ry], scale=[sx, sy],
+                matrix=M.tolist())
+        if circ(skew, ry - rx) > 1e-7:
+            bad('skew is not roty - rotx modulo 360', skew=skew, rot=[rx, ry])
+        if abs(mrot - 0.5 * (rx + ry)) > 1e-7:
+            bad('<rot> is not the mean of rotx and roty', mean_rot=mrot, rot=[rx, ry])
+        if abs(mscale - math.sqrt(abs(det))) > 1e-7 * mag:
+            bad('<scale> is not sqrt|det|', mean_scale=mscale, det=det)
+        if proper != (det > 0):
+            bad('proper is not (det > 0)', proper=proper, det=det)
+        if 'proper_rot' in fi and proper and geom in ('rscale', 'rshift') and circ(float(fi['proper_rot']), mrot) > 1e-7:
+            bad('proper_rot differs from <rot> for a proper similarity', proper_rot=float(fi['proper_rot']), mean_rot=mrot)
+        for nm, a in (('rotx', rx), ('roty', ry), ('<rot>', mrot), ('skew', skew)):
+            if not (-180.0 <= a <= 180.0):
+                bad('angle outside [-180, 180]', which=nm, value=a)
+        # the decomposition must also be the one of the generating map (noise-free data, determined fit)
+        if float(np.max(np.abs(M - A))) > 1e-6:
+            bad('reported matrix is not the generating one', matrix=M.tolist(), truth=A.tolist())
+
+
 def run(ctx):
     lines, pending = [], []
     for case, d in corpus_cases():
         check_case(ctx, case, d, lines, pending)
     direct_build_fit(ctx, lines, pending)
+    fit_info_cases(ctx, ctx.n(40, 600))
     for _ in range(ctx.n(6000, 120000)):
         case, d = generated_case(ctx.rng.getrandbits(48))
         check_case(ctx, case, d, lines, pending)
@@ -565,6 +657,9 @@ def replay(ctx, payload):
         for c2, d in corpus_cases():
             if all(c2[k] == case.get(k) for k in ('name', 'geom', 'wmode')):
                 check_case(ctx, c2, d, lines, pending)
+    elif case.get('kind') == 'fit_info':
+        # the fixed part of the family (proper / improper, both sides of the cut) and a fresh random part
+        fit_info_cases(ctx, 60)
     else:
         direct_build_fit(ctx, lines, pending)
     compare(ctx, ctx.driver(lines), pending)
